@@ -219,6 +219,100 @@ theorem recStep_verif (fixed feature : Bool) (r : Rev) (f : Faults) (c : Cache) 
           · rfl
           · simp only []; rw [gates_verif]
 
+/-! ### locality (reconciles of revisions with different cache paths do not interfere) -/
+
+theorem fetch_frame (fixed : Bool) (r : Rev) (f : Faults) (c : Cache) (k : String) (h1 : k ≠ r.key) (h2 : k ≠ r.id) :
+    (fetch fixed r f c).1 k = c k := by
+  unfold fetch
+  split
+  · split
+    · split
+      · rfl
+      · simp [Cache.erase, h2]
+    · split <;> rfl
+  · split
+    · rfl
+    · split
+      · rfl
+      · exact set_ne _ _ _ _ h1
+
+/-- `fetch` reads the cache only at the revision's lookup id; what it leaves at the
+revision's two paths depends on nothing else. -/
+theorem fetch_local (fixed : Bool) (r : Rev) (f : Faults) (c c' : Cache) (h : c r.id = c' r.id) (h' : c r.key = c' r.key) :
+    (fetch fixed r f c).2 = (fetch fixed r f c').2 ∧
+    (fetch fixed r f c).1 r.id = (fetch fixed r f c').1 r.id ∧
+    (fetch fixed r f c).1 r.key = (fetch fixed r f c').1 r.key := by
+  unfold fetch
+  rw [← h]
+  cases hc : c r.id with
+  | some e =>
+    by_cases hg : (f.get || e == .broken false) = true
+    · by_cases hd : f.del = true
+      · simp [hg, hd, h, h']
+      · by_cases hk : r.key = r.id
+        · simp [hg, hd, Cache.erase, hk]
+        · simp [hg, hd, Cache.erase, hk, h']
+    · cases e <;> simp [hg, h, h']
+  | none =>
+    by_cases hn : r.never = true
+    · simp [hn, h, h']
+    · by_cases hi : (f.init || !r.imgOk) = true
+      · simp [hn, hi, h, h']
+      · have hid : r.id = r.key := by simp [Rev.id, hn]
+        simp [hn, hi, hid, set_self]
+
+theorem recStep_frame (fixed feature : Bool) (r : Rev) (f : Faults) (c : Cache) (st : RevSt) (k : String)
+    (h1 : k ≠ r.key) (h2 : k ≠ r.id) : (recStep fixed feature r f c st).1 k = c k := by
+  unfold recStep
+  split
+  · rfl
+  · split
+    · split
+      · rfl
+      · simp [Cache.erase, h1]
+    · split
+      · split <;> rfl
+      · simp only []
+        split
+        · rfl
+        · have := fetch_frame fixed r f c k h1 h2
+          split <;> rename_i heq <;> rw [heq] at this <;> exact this
+
+theorem recStep_local (fixed feature : Bool) (r : Rev) (f : Faults) (c c' : Cache) (st : RevSt)
+    (h : c r.id = c' r.id) (h' : c r.key = c' r.key) :
+    (recStep fixed feature r f c st).2 = (recStep fixed feature r f c' st).2 ∧
+    (recStep fixed feature r f c st).1 r.id = (recStep fixed feature r f c' st).1 r.id ∧
+    (recStep fixed feature r f c st).1 r.key = (recStep fixed feature r f c' st).1 r.key := by
+  obtain ⟨e1, e2, e3⟩ := fetch_local fixed r f c c' h h'
+  unfold recStep
+  split
+  · exact ⟨rfl, h, h'⟩
+  · split
+    · split
+      · exact ⟨rfl, h, h'⟩
+      · refine ⟨rfl, ?_, by simp [Cache.erase]⟩
+        by_cases hk : r.id = r.key
+        · simp [Cache.erase, hk]
+        · simp [Cache.erase, hk, h]
+    · split
+      · split <;> exact ⟨rfl, h, h'⟩
+      · simp only []
+        split
+        · exact ⟨rfl, h, h'⟩
+        · cases h1 : fetch fixed r f c with
+          | mk ca fa =>
+            cases h2 : fetch fixed r f c' with
+            | mk cb fb =>
+              rw [h1, h2] at e1 e2 e3
+              simp only [] at e1 e2 e3
+              subst e1
+              cases fa with
+              | stop res u => exact ⟨rfl, e2, e3⟩
+              | parsed p =>
+                cases p with
+                | none => exact ⟨rfl, e2, e3⟩
+                | some p => exact ⟨rfl, e2, e3⟩
+
 /-! ### histories -/
 
 /-- One step of a history preserves the cache invariant. -/
